@@ -234,3 +234,19 @@ Theorem C06_dataset_selection_lanes : forall pick2 D cap seed ctl ops es,
   wexec_lanes pick2 D cap seed ctl ops es
   = map (fun ce : (nat * nat) * wenv => wexec (dl_of (nth (WaveStrip.chosen seed (fst ce)) D [])) cap ops (snd ce)) (combine ctl es).
 Proof. exact WaveStrip.dataset_selection_lanes. Qed.
+
+(** timing simulation at MEMORY level: the compared model [wsim_case] captures the same six entries at every s_node under any two
+    c_reuse x strip_forks combinations (zero delay on fork inputs, strictly increasing stems that fit the branch regions where
+    forks are stripped; outside: C06_wave_strip_nonmonotone_refuted = known finding D26) *)
+From KV Require Import Model.WaveSimModel Model.WaveGlue.
+From KV Require Proofs.LogicSimGlue Proofs.WaveSimGlue.
+Theorem C06_wavesim_options_irrelevant : forall c caps r1 s1 r2 s2 delays actrl1 actrl2 abuf_len s extra tcap,
+  wf_netlist c -> comb_acyclic c -> KV.Proofs.EndToEnd.gates_known c -> List.length (c_lines c) <= List.length caps ->
+  KV.Proofs.WaveSimGlue.extra_ok c extra ->
+  let dl := dl_of delays in let cp := lcap (List.length (c_lines c)) caps in let e0 := wenv0 c s extra in
+  (s1 = true \/ s2 = true -> build_stems c true (KV.Proofs.LogicSimGlue.std_len c) <> None /\ KV.Proofs.ReuseStrip.forks_ok c /\
+       KV.Proofs.WaveSimGlue.forks_single c /\ KV.Proofs.WaveSimGlue.wave_inputs_ok c dl (stim_wave s extra) /\
+       KV.Proofs.WaveSimGlue.strip_side c dl cp (wexec dl cp (build_ops c false) e0)) ->
+  exists ra rb, wsim_case c caps r1 s1 delays actrl1 abuf_len s extra tcap = Some ra /\
+                wsim_case c caps r2 s2 delays actrl2 abuf_len s extra tcap = Some rb /\ w_capt ra = w_capt rb.
+Proof. exact KV.Proofs.WaveSimGlue.wavesim_options_irrelevant. Qed.
